@@ -185,13 +185,20 @@ class Workspace:
         shutil.copytree(VERIF / "client_rt" / "vrt", self.root / "vrt")
         if self.vattr:
             shutil.copytree(VERIF / "client_rt" / "vattr", self.root / "vattr")
+        self.write_extra()
+        for s in self.shards:
+            self.write_shard(s)
+
+    def write_extra(self):
+        live = [c for c in self.cases if c.removed is None]
         for name, files in self.extra_crates.items():
+            if callable(files):
+                files = files(live)
             for rel, content in files.items():
                 p = self.root / name / rel
                 p.parent.mkdir(parents=True, exist_ok=True)
-                p.write_text(content)
-        for s in self.shards:
-            self.write_shard(s)
+                if not p.exists() or p.read_text() != content:
+                    p.write_text(content)
 
     def dep_lines(self):
         feats = ', features = ["unimock"]' if self.unimock else ""
@@ -353,6 +360,7 @@ class Workspace:
             for s in self.shards:
                 if any(c in failing for c in s.cases):
                     self.write_shard(s)
+            self.write_extra()
         raise Inconclusive("fix-point compilation did not converge in %d rounds (%s)" % (max_rounds, self.label))
 
     def attach_records(self, dump, only=None):
@@ -571,7 +579,10 @@ def fmt_tokens(ts):
 
 
 def floors(report, **mins):
-    """Observation floors: a run that observed less is inconclusive, not green."""
+    """Observation floors: a run that observed less is inconclusive, not green.
+    Violations that were observed are reported in any case (a violated run is never turned into 'inconclusive')."""
+    if report.violations:
+        return
     for k, v in mins.items():
         have = report.extra.get(k, getattr(report, k, 0))
         if isinstance(have, (set, list, dict)):
